@@ -7,6 +7,11 @@ package main
 //	X:<now>:<retention>   ONE round of notificationsTrimmer.trimNotifications with the clock at <now> ms and the given
 //	                      retention in ms (kv.VerifTrimNotifications)      -> trimmed | nothing | err
 //	                      ("trimmed" = the set of stored batches changed; the next D/H op compares the exact set)
+//	XW:<now>:<retention>:<offset>:<ts>:<puts>:<dels>:<ranges>
+//	                      the same round, but the request (fields of a W op) is applied WHILE the round runs: exactly when the
+//	                      trimmer, having taken first/last and read its timestamps, creates its write batch (a kv.KV wrapper
+//	                      handed to kv.VerifTrimNotifications fires on NewWriteBatch); if the round ends without writing, the
+//	                      request is applied right after it              -> <trimmed|nothing|err>|<result of the W op>
 //	Q:<from>              the leader's dispatch loop run against the quiescent DB: offset := from;
 //	                      { ReadNextNotifications(offset+1); deliver; offset = last delivered } until it would wait
 //	                      -> <batch>,<batch>,...|wait:<offset>   ("-" for no batch; spin:<offset> / err:<kind> otherwise)
@@ -34,6 +39,10 @@ package main
 //	notif:delivered-above-commit      a delivered batch lies above the DB's commit offset
 //	notif:trimmed-within-retention    a trimming round removed a batch younger than now-retention (monotone timestamps), or
 //	                                  removed something that is not a prefix of the stored batches
+//	notif:unexpired-batch-trimmed     a request committed while a trimming round was running (timestamp = the round's clock
+//	                                  reading, i.e. younger than now-retention) has no batch afterwards: a subscriber starting
+//	                                  at or below its offset never receives it. The detail carries the whole schedule as a
+//	                                  replayable nseq line.
 
 import (
 	"fmt"
@@ -243,6 +252,13 @@ func (c *c17Run) write(w *wreq) string {
 	op := w.String()
 	res := c.r.do(op)
 	post := c17ViewOf(c.r.e.dump())
+	c.judgeWrite(w, op, res, pre, post, "notif:batch-missing")
+	return res
+}
+
+// judgeWrite evaluates the batch verdicts for one applied W op; [missingSig] is the signature used when the batch
+// of an applied request is not stored.
+func (c *c17Run) judgeWrite(w *wreq, op, res string, pre, post *c17View, missingSig string) string {
 	ctx := fmt.Sprintf("request %s -> %s", op, res)
 	ok, puts, dels, ranges := c17ParseWrite(res)
 	b, stored := post.batches[w.offset]
@@ -261,7 +277,12 @@ func (c *c17Run) write(w *wreq) string {
 		return res
 	}
 	if !stored {
-		c.viol("notif:batch-missing", "%s: no batch under offset %d", ctx, w.offset)
+		if missingSig == "notif:batch-missing" {
+			c.viol(missingSig, "%s: no batch under offset %d", ctx, w.offset)
+		} else {
+			c.viol(missingSig, "%s: no batch under offset %d after the round; stored offsets before %v, after %v; schedule: nseq 0 %d %d %s",
+				ctx, w.offset, pre.offsets, post.offsets, c.r.e.shard, kv.DeleteRangeThreshold, strings.Join(c.r.ops, ";"))
+		}
 		return res
 	}
 	c.o.Count("c17:batch-checked")
@@ -411,11 +432,83 @@ func (c *c17Run) trim(now, ret int64) {
 	res := c.do(fmt.Sprintf("X:%d:%d", now, ret))
 	after := c17ViewOf(c.r.e.dump())
 	c.o.Count("c17:trim:" + res)
+	c.judgeTrim(before, after, now, ret, res, -1)
+}
+
+// c17GateKV is the store handed to the trimmer for an XW op: the first NewWriteBatch (the trimmer has finished reading by
+// then and is about to write its range tombstone) fires the concurrent request.
+type c17GateKV struct {
+	kv.KV
+	fire  func()
+	fired bool
+}
+
+func (g *c17GateKV) NewWriteBatch() kv.WriteBatch {
+	if !g.fired {
+		g.fired = true
+		g.fire()
+	}
+	return g.KV.NewWriteBatch()
+}
+
+// trimWithWrite: one trimming round during which the request [w] commits (op XW), judged for both.
+func (c *c17Run) trimWithWrite(now, ret int64, w *wreq) {
+	before := c17ViewOf(c.r.e.dump())
+	wop := w.String()
+	var wres string
+	inside := false
+	gate := &c17GateKV{KV: kv.VerifDBStore(c.r.e.db), fire: func() { wres = c.r.exec(wop); inside = true }}
+	clk := &oxtime.MockedClock{}
+	clk.Set(now)
+	err := kv.VerifTrimNotifications(gate, time.Duration(ret)*time.Millisecond, clk)
+	if !gate.fired {
+		wres = c.r.exec(wop) // the round ended without writing anything: the request follows it
+	}
+	after := c17ViewOf(c.r.e.dump())
+	xres := "nothing"
+	if err != nil {
+		xres = "err"
+	} else {
+		for _, off := range before.offsets {
+			if _, kept := after.batches[off]; !kept {
+				xres = "trimmed"
+			}
+		}
+	}
+	c.r.ops = append(c.r.ops, fmt.Sprintf("XW:%d:%d:%s", now, ret, wop[2:]))
+	c.r.res = append(c.r.res, xres+"|"+wres)
+	c.o.Count("c17:trim-with-write:" + xres)
+	if inside {
+		c.o.Count("c17:write-landed-inside-round")
+		if len(before.offsets) > 0 && int64(before.batches[before.offsets[len(before.offsets)-1]].ts) <= now-ret {
+			c.o.Count("c17:write-inside-round-everything-expired")
+		}
+	}
+	c.judgeTrim(before, after, now, ret, xres, w.offset)
+	sig := "notif:batch-missing"
+	if inside && int64(w.ts) > now-ret {
+		sig = "notif:unexpired-batch-trimmed"
+	}
+	c.judgeWrite(w, wop, wres, before, after, sig)
+	if c.enabled && strings.HasPrefix(wres, "ok:") {
+		// a subscriber that saw everything below the request's offset must now receive its batch
+		if rd := c.do(fmt.Sprintf("Q:%d", w.offset-1)); !strings.HasPrefix(rd, fmt.Sprintf("%d/%d/", c.r.e.shard, w.offset)) {
+			c.viol(sig, "a subscriber resuming at %d after the round receives %s, not the batch of offset %d (timestamp %d, round at now=%d retention=%d); schedule: nseq 0 %d %d %s",
+				w.offset-1, rd, w.offset, w.ts, now, ret, c.r.e.shard, kv.DeleteRangeThreshold, strings.Join(c.r.ops, ";"))
+		}
+	}
+}
+
+// judgeTrim: what a round may remove. [written] = offset of a request applied during the round (-1: none).
+func (c *c17Run) judgeTrim(before, after *c17View, now, ret int64, res string, written int64) {
 	ctx := fmt.Sprintf("trim now=%d retention=%d (%s), stored before %v after %v", now, ret, res, before.offsets, after.offsets)
 	cutoff := now - ret
 	minKept := int64(-1)
-	if len(after.offsets) > 0 {
-		minKept = after.offsets[0]
+	for _, off := range after.offsets {
+		if off != written {
+			minKept = off
+			break
+		}
 	}
 	for _, off := range before.offsets {
 		if _, kept := after.batches[off]; kept {
@@ -431,7 +524,7 @@ func (c *c17Run) trim(now, ret int64) {
 		}
 	}
 	for _, off := range after.offsets {
-		if _, was := before.batches[off]; !was {
+		if _, was := before.batches[off]; !was && off != written {
 			c.viol("notif:batch-content-differs", "%s: offset %d appeared during a trimming round", ctx, off)
 		}
 	}
@@ -642,6 +735,26 @@ func c17Gen(o *hx.Out, rng *hx.Rng, n int) {
 						c.stream(hx.Pick(crng, []int64{-1, 0, g.off / 2, g.off - 1}))
 					}
 				}
+				if crng.Chance(10) {
+					// the shard was idle for longer than the retention (everything stored has expired) - or only partly -
+					// and a request commits while the trimming round runs
+					ret := int64(hx.Pick(crng, []int{1, 50, 1000}))
+					now := int64(c.maxTs) + ret + int64(crng.Intn(3))
+					if crng.Chance(25) {
+						now = int64(c.lastTs) - int64(crng.Intn(30)) + ret
+					}
+					w := g.mixedRequest()
+					g.off++
+					w.offset = g.off
+					if uint64(now) > c.lastTs || !c.monotone {
+						c.lastTs = uint64(now)
+					}
+					w.ts = c.lastTs
+					if c.lastTs > c.maxTs {
+						c.maxTs = c.lastTs
+					}
+					c.trimWithWrite(now, ret, w)
+				}
 				if crng.Chance(25) {
 					c.do("H")
 				}
@@ -676,7 +789,11 @@ func c17Replay(o *hx.Out, t []string) {
 		r.ref = newRef()
 		c := &c17Run{r: r, o: o, enabled: true, monotone: true, offOf: map[int64]uint64{}}
 		var prevTs uint64
+		skipQ := ""
 		for _, op := range ops {
+			if op != skipQ && !strings.HasPrefix(op, "N:") {
+				skipQ = ""
+			}
 			f := strings.Split(op, ":")
 			switch f[0] {
 			case "W":
@@ -690,7 +807,21 @@ func c17Replay(o *hx.Out, t []string) {
 				now, _ := strconv.ParseInt(f[1], 10, 64)
 				ret, _ := strconv.ParseInt(f[2], 10, 64)
 				c.trim(now, ret)
+			case "XW":
+				now, _ := strconv.ParseInt(f[1], 10, 64)
+				ret, _ := strconv.ParseInt(f[2], 10, 64)
+				w := parseW(append([]string{"W"}, f[3:]...))
+				if w.ts < prevTs {
+					c.monotone = false
+				}
+				prevTs = w.ts
+				c.trimWithWrite(now, ret, w)
+				skipQ = fmt.Sprintf("Q:%d", w.offset-1)
 			case "Q":
+				if op == skipQ {
+					skipQ = ""
+					continue
+				}
 				from, _ := strconv.ParseInt(f[1], 10, 64)
 				c.stream(from)
 			case "E":
